@@ -1,6 +1,6 @@
 """C11 – likelihoods are Poisson / multinomial over jointly unmasked entries, with the optimal theta.
 
-Enumerated: (a) ALL pairs of mask patterns (model mask x data mask) on 5 (quick) / 6 (thorough) free entries of each shape, folded and
+Enumerated: (a) ALL pairs of mask patterns (model mask x data mask) on 5 (quick) / 7 (thorough) free entries of each shape, folded and
 unfolded data; (b) ALL assignments of the value alphabets data {0,1/2,1,3.7,40} x model {0,1e-3,1,2.5} to 3 free entries, under 3
 mask patterns; (c) scale factors, Gibbs optimality over the model alphabet, residual sign/mask rules.
 Oracle: a direct loop with math.lgamma over explicitly selected entries.
@@ -285,7 +285,7 @@ def replay(ctx, case):
 
 def run(ctx):
     cases = []
-    k = 5 if ctx.quick else 6
+    k = 5 if ctx.quick else 7
     for shape in SHAPES:
         for folded in (False, True):
             total = 1 << (2 * k)
